@@ -263,6 +263,7 @@ func runC06(c *mc.Ctx) {
 					m := []byte(str)
 					m[pos] = byte(v)
 					raws = append(raws, c06Raw{StrHex: mc.Hex(m), Why: "one character of the string replaced by another byte value"})
+					raws = append(raws, c06Raw{StrHex: mc.Hex([]byte(str[:pos] + string([]byte{byte(v)}) + str[pos:])), Why: "one byte inserted into the string"})
 				}
 			}
 		}
